@@ -34,7 +34,11 @@ sys.path.insert(0, REPO)
 import cdriver  # noqa: E402
 import render  # noqa: E402
 import values  # noqa: E402
+import drive_codec  # noqa: E402
 from drive_codec import guarded  # noqa: E402
+
+# compile / generate of a 30-type module takes seconds on a loaded machine: only a real hang is an outcome
+drive_codec.CALL_TIMEOUT = int(os.environ.get('VERIF_CGEN_TIMEOUT', '300'))
 
 NS = 'ns'
 MOD = {'A': 'Ma', 'B': 'Mb'}
@@ -287,7 +291,7 @@ def crash_event(op, vi, exc, data=None, size=None):
     if isinstance(exc, cdriver.Hang):
         ev.update({'kind': 'hang', 'frame': ''})
     else:
-        ev.update({'kind': exc.kind, 'frame': exc.frame, 'report': exc.report[-600:]})
+        ev.update({'kind': exc.kind, 'frame': exc.frame, 'report': exc.report[:700] + ' ... ' + exc.report[-300:]})
     if data is not None:
         ev['input'] = list(data)
     if size is not None:
